@@ -159,11 +159,12 @@ func (pe *PolicyEngine) getPeer(p string) (k8s.Peer, error) {
 			if namespaceStr == metav1.NamespaceNone {
 				namespaceStr = metav1.NamespaceDefault
 			}
-			nsObj, ok := pe.namespacesMap[namespaceStr]
-			if !ok {
-				return nil, errors.New(netpolerrors.NotFoundNamespace)
+			// a pod whose namespace has no Namespace object lives in the default namespace object of that name
+			// (as for an engine built from a list of parsed resources)
+			if err := pe.resolveSingleMissingNamespace(namespaceStr); err != nil {
+				return nil, err
 			}
-			res.NamespaceObject = nsObj
+			res.NamespaceObject = pe.namespacesMap[namespaceStr]
 			return res, nil
 		}
 		return nil, errors.New(netpolerrors.NotFoundPeerErrStr(p))
